@@ -39,6 +39,7 @@ selftest/mutants/F21-reintroduce.patch C01
 selftest/mutants/F22-reintroduce.patch C01
 selftest/mutants/F23-reintroduce.patch C07
 selftest/mutants/F24-reintroduce.patch C07
+selftest/mutants/F24b-reintroduce.patch C18 thorough
 selftest/mutants/F25-reintroduce.patch C07
 selftest/mutants/F27-reintroduce.patch C02
 selftest/mutants/F28-reintroduce.patch C08
